@@ -153,49 +153,7 @@ def check(ctx):
            "iteration's estimator", construct="recorded gamma")
     ctx.ob("R09.2", fq, appends["objectives_"][0].node, oko, "objectives_[i] = objective.gamma(h).iloc[0] with the same h",
            construct="recorded objective")
-    # R09.3 selection
-    bi = stores_attr(r, "best_idx_")
-    ctx.floor("R09.3", "stores of best_idx_", len(bi), 1)
-    e = bi[0]
-    v = e.data["value"]
-    ok = False
-    loss_ok = False
-    uses_ow = True
-    if v.op == "call" and v.args[0].op == "attr" and v.args[0].args[1] == "index" and v.args[1] and v.args[1][0].op == "call" \
-            and v.args[1][0].args[0] is glob("builtins.min") and v.args[1][0].args[1][0] is v.args[0].args[0]:
-        losses = v.args[0].args[0]
-        ok = True
-        if losses.op == "comp" and losses.args[0] == "list":
-            elt, gens = losses.args[1], losses.args[2]
-            k = mk("elem", gens[0][0])
-            okr = A.eq(gens[0][0], A.at(e, "range(len(self.objectives_))"))
-            want = A.at(e, "self.objective_weight * self.objectives_[K] + self.constraint_weight * self.gammas_[G.columns[K]].max()",
-                        {"K": k, "G": grid})
-            direct = A.at(e, "(1.0 - self.constraint_weight) * self.objectives_[K] + self.constraint_weight * self.gammas_[G.columns[K]].max()",
-                          {"K": k, "G": grid})
-            uses_ow = contains(elt, lambda s_: s_.op == "attr" and s_.args[1] == "objective_weight")
-            loss_ok = okr and (A.eq(elt, direct) or A.eq(elt, want))
-    np_ok = v.op == "call" and v.args[0] is glob("numpy.argmin")
-    ctx.ob("R09.3", fq, e.node, ok or np_ok, "best_idx_ is the first index attaining the minimum loss", construct="first argmin")
-    ctx.ob("R09.3", fq, e.node, loss_ok, "loss(i) = (1 - constraint_weight)*objectives_[i] + constraint_weight*max(gammas_[grid "
-           "column i])", construct="trade-off loss")
-    A2 = Analysis(ctx)
-    ri = A2.run(GS + ".__init__", cls_ctx=GS)
-    ow = ri.final.heap.get((ri.self_term, "objective_weight"))
-    cw = ri.final.heap.get((ri.self_term, "constraint_weight"))
-    P = ri.params
-    ok = ow is not None and cw is not None and A2.eq(ow, A2.spec("1.0 - c", {"c": P["constraint_weight"]})) and \
-        (A2.eq(cw, P["constraint_weight"]) or A2.eq(cw, A2.spec("float(c)", {"c": P["constraint_weight"], "float": glob("builtins.float")})))
-    if uses_ow:
-        ctx.ob("R09.3", ri.func, None, ok, "objective_weight = 1 - constraint_weight", construct="weights complement")
-    else:
-        okc = cw is not None and (A2.eq(cw, P["constraint_weight"]) or A2.eq(cw, A2.spec("float(c)", {"c": P["constraint_weight"], "float": glob("builtins.float")})))
-        ctx.ob("R09.3", ri.func, None, okc, "constraint_weight is stored as given; the objective's weight is its complement at fit time",
-               construct="weights complement")
-    for m in ("predict", "predict_proba"):
-        rp = A2.run(f"{GS}.{m}", cls_ctx=GS)
-        want = A2.entry(rp, f"self.predictors_[self.best_idx_].{m}(X)")
-        ctx.ob("R09.3", rp.func, None, rp.ret is want, f"{m} delegates to predictors_[best_idx_].{m}(X)", construct=f"{m} delegation")
+    ctx.guard(_r093_selection, ctx)
     ctx.guard(_generator, ctx)
     ctx.guard(basis, ctx)
     ctx.guard(_shared_c09, ctx)
@@ -393,3 +351,57 @@ def _shared_c09(ctx):
     lifecycle_of(ctx, [GS], {"R19.3": "R09.7", "R19.4": "R09.7", "R19.6": "R09.7", "R19.8": "R09.7"})
     ctx.rule("R09.8", "no caller-labelled pandas value reaches a label-aligning operation on the paths of this property (shared with C12 R12.1)")
     label_sinks(ctx, "R09.8", [(GS + ".fit", GS)])
+
+
+def _r093_selection(ctx):
+    """best_idx_ and the delegation of predict; a rule group of its own (the selection is often rewritten independently of the loop)."""
+    A = Analysis(ctx, inline=_no_gen, max_depth=3)
+    r = A.run(GS + ".fit", cls_ctx=GS)
+    fq = r.func
+    loops = [e for e in r.events if e.kind == "loop" and e.func == fq and not e.loops]
+    grid_loop = [l for l in loops if l.data["iter"].op == "attr" and l.data["iter"].args[1] == "columns"]
+    ctx.require(len(grid_loop) == 1, "anchor vanished: loop over grid.columns")
+    grid = grid_loop[0].data["iter"].args[0]
+    # R09.3 selection
+    bi = stores_attr(r, "best_idx_")
+    ctx.floor("R09.3", "stores of best_idx_", len(bi), 1)
+    e = bi[0]
+    v = e.data["value"]
+    ok = False
+    loss_ok = False
+    uses_ow = True
+    if v.op == "call" and v.args[0].op == "attr" and v.args[0].args[1] == "index" and v.args[1] and v.args[1][0].op == "call" \
+            and v.args[1][0].args[0] is glob("builtins.min") and v.args[1][0].args[1][0] is v.args[0].args[0]:
+        losses = v.args[0].args[0]
+        ok = True
+        if losses.op == "comp" and losses.args[0] == "list":
+            elt, gens = losses.args[1], losses.args[2]
+            k = mk("elem", gens[0][0])
+            okr = A.eq(gens[0][0], A.at(e, "range(len(self.objectives_))"))
+            want = A.at(e, "self.objective_weight * self.objectives_[K] + self.constraint_weight * self.gammas_[G.columns[K]].max()",
+                        {"K": k, "G": grid})
+            direct = A.at(e, "(1.0 - self.constraint_weight) * self.objectives_[K] + self.constraint_weight * self.gammas_[G.columns[K]].max()",
+                          {"K": k, "G": grid})
+            uses_ow = contains(elt, lambda s_: s_.op == "attr" and s_.args[1] == "objective_weight")
+            loss_ok = okr and (A.eq(elt, direct) or A.eq(elt, want))
+    np_ok = v.op == "call" and v.args[0] is glob("numpy.argmin")
+    ctx.ob("R09.3", fq, e.node, ok or np_ok, "best_idx_ is the first index attaining the minimum loss", construct="first argmin")
+    ctx.ob("R09.3", fq, e.node, loss_ok, "loss(i) = (1 - constraint_weight)*objectives_[i] + constraint_weight*max(gammas_[grid "
+           "column i])", construct="trade-off loss")
+    A2 = Analysis(ctx)
+    ri = A2.run(GS + ".__init__", cls_ctx=GS)
+    ow = ri.final.heap.get((ri.self_term, "objective_weight"))
+    cw = ri.final.heap.get((ri.self_term, "constraint_weight"))
+    P = ri.params
+    ok = ow is not None and cw is not None and A2.eq(ow, A2.spec("1.0 - c", {"c": P["constraint_weight"]})) and \
+        (A2.eq(cw, P["constraint_weight"]) or A2.eq(cw, A2.spec("float(c)", {"c": P["constraint_weight"], "float": glob("builtins.float")})))
+    if uses_ow:
+        ctx.ob("R09.3", ri.func, None, ok, "objective_weight = 1 - constraint_weight", construct="weights complement")
+    else:
+        okc = cw is not None and (A2.eq(cw, P["constraint_weight"]) or A2.eq(cw, A2.spec("float(c)", {"c": P["constraint_weight"], "float": glob("builtins.float")})))
+        ctx.ob("R09.3", ri.func, None, okc, "constraint_weight is stored as given; the objective's weight is its complement at fit time",
+               construct="weights complement")
+    for m in ("predict", "predict_proba"):
+        rp = A2.run(f"{GS}.{m}", cls_ctx=GS)
+        want = A2.entry(rp, f"self.predictors_[self.best_idx_].{m}(X)")
+        ctx.ob("R09.3", rp.func, None, rp.ret is want, f"{m} delegates to predictors_[best_idx_].{m}(X)", construct=f"{m} delegation")
